@@ -333,6 +333,10 @@ class Interp:
     def _arith1(self, op, a, b):
         # pointer arithmetic
         if isinstance(a, tuple) and a[0] == "addr" and op in ("+", "-"):
+            if not self.widen and is_int(b) and a[1][0] == "i" and is_int(a[1][2]):
+                k = a[1][2] + (b if op == "+" else -b)
+                if 0 <= k <= 64:
+                    return {("addr", ("i", a[1][1], k))}
             return {("addr", smash(a[1]))}
         if isinstance(b, tuple) and b[0] == "addr" and op == "+":
             return {("addr", smash(b[1]))}
